@@ -1,7 +1,7 @@
 (* Props_C10.v — property C10 (the PodENI record follows its phase machine and an interface is never pulled from a
    live pod). *)
 From Coq Require Import ZArith List Bool.
-From TV Require Import PeModel PeProofs.
+From TV Require Import PeModel PeProofs PeProofs2.
 Import ListNotations.
 Local Open Scope Z_scope.
 
@@ -38,6 +38,14 @@ Theorem c10_never_pulled_from_running_pod : forall l e r p,
   q_uid p = r_uid r -> q_exited p = true.
 Proof. exact never_pulled_from_running_pod. Qed.
 Print Assumptions c10_never_pulled_from_running_pod.
+
+(* when a pod without a fixed address is gone, its bound record is marked, deleted, its interfaces detached and deleted
+   and the record disappears: three controller steps, whatever else the state holds *)
+Theorem c10_vanished_pod_record_goes : forall r used,
+  r_phase r = 1 -> r_del r = false -> r_fin r = true -> have_fixed (r_allocs r) = false ->
+  s_rec (fold_left step [EvPodCtl []; EvEniCtl true true; EvEniCtl true true] (mkSt None (Some r) used)) = None.
+Proof. exact vanished_pod_record_goes. Qed.
+Print Assumptions c10_vanished_pod_record_goes.
 
 (* non-vacuity: a pod is created, bound, replaced by a new instance under the same name; the interfaces are pulled
    (finalizer) while the NEW pod runs - allowed, the record is bound to the old uid - and a new record is created *)
